@@ -52,6 +52,12 @@ def check(hyps, goal, timeout_ms=None, want_model=True, tactic=None, use_cli=Tru
         s.add(h)
     s.add(z3.Not(goal))
     t0 = time.time()
+    if use_cli and os.environ.get('VERIF_SOLVER_ORDER') == 'cli-first':
+        # retry mode (vf/core.run_tasks): an in-process call that never returns cannot be interrupted, an external process can
+        st, backend, dt2 = _cli(s.to_smt2(), max(5, timeout_ms // 1000))
+        if st == 'unsat':
+            return dict(status='proved', backend=backend, seconds=dt2, model=None, reason='unsat')
+        use_cli = False      # sat / unknown: the in-process solver is asked for the verdict and the model
     r = s.check()
     dt = time.time() - t0
     if r == z3.unsat:
